@@ -126,6 +126,10 @@ METHOD_TO_OP = {
 }
 
 
+def x_dom(st, dom):
+    return st.g[dom]
+
+
 def addr_of(term):
     return Val.addr(term)
 
@@ -340,6 +344,11 @@ class Intrinsics:
         k = self.kind_of(obj)
         if k:
             return self.cell_op(st, obj, k, "delitem", [key])
+        if isinstance(obj, LocksTableV):
+            outs = []
+            for (x, r) in self.b_lockstable_pop(self.eng, st, BuiltinV("lockstable.pop", recv=obj), [key], {}):
+                outs.append((x, r if isinstance(r, Raise) else Const(None)))
+            return outs
         if isinstance(obj, ObjV):
             return self.eng.call_method(st, obj, "__delitem__", [key], {})
         raise Unsupported(f"del subscript on {obj!r}")
@@ -906,6 +915,8 @@ class Intrinsics:
         if isinstance(obj, LockV):
             if name in ("__enter__", "__exit__", "acquire", "release"):
                 return [(st, BuiltinV("lock." + name, recv=obj))]
+        if isinstance(obj, LocksTableV) and name == "pop":
+            return [(st, BuiltinV("lockstable.pop", recv=obj))]
         if isinstance(obj, Z) and name == "_data" and obj.meta.get("plain"):
             # a plain value (not a synced node) has no _data attribute
             return [(st, Raise(eng.mk_exc("AttributeError")))]
@@ -934,6 +945,24 @@ class Intrinsics:
         if isinstance(obj, BuiltinV):
             return [(st, BuiltinV(obj.name + "." + name, recv=obj.recv))]
         raise Unsupported(f"attribute {name} of {obj!r}")
+
+    def b_lockstable_pop(self, eng, st, fn, args, kwargs):
+        """Class._locks.pop(key[, default]): the table loses the key (KeyError if it is missing and no default)."""
+        tab = fn.recv
+        dom = "LockDom:" + tab.cls_name
+        kv = to_val(args[0])
+        outs = []
+        for (x, side) in eng.fork(st, z3.Select(x_dom(st, dom), kv), ("locks-has", tab.cls_name)):
+            if side:
+                lid = F("lockid", IntS, Val, IntS)(z3.IntVal(smt.tid_of(tab.cls_name)), kv)
+                x.g[dom] = z3.Store(x.g[dom], kv, z3.BoolVal(False))
+                x.event("locks-remove", tab.cls_name, kv)
+                outs.append((x, LockV(lid, f"{tab.cls_name}._locks[{kv}]")))
+            elif len(args) > 1:
+                outs.append((x, args[1]))
+            else:
+                outs.append((x, Raise(eng.mk_exc("KeyError"))))
+        return outs
 
     def b_resolver_get_type(self, eng, st, fn, args, kwargs):
         """Contract of AbstractTypeResolver.get_type (proved in C19 under the cache invariant): the tag of the
